@@ -68,6 +68,28 @@ pub fn check_parse(input: &ParseIn, case: &mut Case) -> Result<(), Fail> {
         let o2 = lib("observe", || observe_record(&pk.answers[1]))?;
         ensure!(o2 == trailing(), "c10:parse-trailing", "record after a {} record parsed as {:?}", mnemonic(code), o2);
     }
+    // conversions of the address-like types give the octets in wire order
+    if let ARData::Typed { fields, .. } = &rec.rdata {
+        match (&pk.answers[0].rdata, fields.first()) {
+            (simple_dns::rdata::RData::EUI48(e), Some(Val::Bytes(b))) => {
+                let a: [u8; 6] = lib("<[u8; 6]>::from(EUI48)", || e.clone().into())?;
+                ensure!(a[..] == b.0[..], "c10:conversion:EUI48", "EUI48 {} converts to {}", hex(&b.0), hex(&a));
+            }
+            (simple_dns::rdata::RData::EUI64(e), Some(Val::Bytes(b))) => {
+                let a: [u8; 8] = lib("<[u8; 8]>::from(EUI64)", || e.clone().into())?;
+                ensure!(a[..] == b.0[..], "c10:conversion:EUI64", "EUI64 {} converts to {}", hex(&b.0), hex(&a));
+            }
+            (simple_dns::rdata::RData::A(x), Some(Val::U32(v))) => {
+                let back = lib("A::from(Ipv4Addr)", || simple_dns::rdata::A::from(std::net::Ipv4Addr::from(x.address)))?;
+                ensure!(back.address == *v, "c10:conversion:A", "A {:#010x} through Ipv4Addr gives {:#010x}", v, back.address);
+            }
+            (simple_dns::rdata::RData::AAAA(x), Some(Val::Bytes(b))) => {
+                let back = lib("AAAA::from(Ipv6Addr)", || simple_dns::rdata::AAAA::from(std::net::Ipv6Addr::from(x.address)))?;
+                ensure!(back.address.to_be_bytes()[..] == b.0[..], "c10:conversion:AAAA", "AAAA {} through Ipv6Addr gives {:#034x}", hex(&b.0), back.address);
+            }
+            _ => {}
+        }
+    }
     Ok(())
 }
 
